@@ -236,14 +236,14 @@ func TestC20RefSelftest(t *testing.T) {
 		{"not not a:1", abe.Assignment{"a": "1"}, true},
 		{"not not not a:1", abe.Assignment{"a": "0"}, true},
 		{"a:1", abe.Assignment{"a": "1", "zz": "9"}, true},
-		{"not (a:1 and b:2)", abe.Assignment{"a": "1"}, false},             // (not a:1) or (not b:2): a equal, b absent
-		{"not (a:1 and b:2)", abe.Assignment{"a": "1", "b": "0"}, true},    // b present and different
-		{"not (a:1 or b:2)", abe.Assignment{"a": "0"}, false},              // needs both present and different
+		{"not (a:1 and b:2)", abe.Assignment{"a": "1"}, false},          // (not a:1) or (not b:2): a equal, b absent
+		{"not (a:1 and b:2)", abe.Assignment{"a": "1", "b": "0"}, true}, // b present and different
+		{"not (a:1 or b:2)", abe.Assignment{"a": "0"}, false},           // needs both present and different
 		{"not (a:1 or b:2)", abe.Assignment{"a": "0", "b": "1"}, true},
 		{"not not (a:1 and b:2)", abe.Assignment{"a": "1", "b": "2"}, true},
 		{"not not (a:1 and b:2)", abe.Assignment{"a": "1"}, false},
-		{"a:0 or b:1 and c:2", abe.Assignment{"a": "0"}, true},             // and binds tighter than or
-		{"not a:0 and b:1", abe.Assignment{"a": "1"}, false},               // not binds tighter than and
+		{"a:0 or b:1 and c:2", abe.Assignment{"a": "0"}, true}, // and binds tighter than or
+		{"not a:0 and b:1", abe.Assignment{"a": "1"}, false},   // not binds tighter than and
 		{"a:0 and a:1", abe.Assignment{"a": "0"}, false},
 		{"a:0 or not a:0", abe.Assignment{}, false},
 	}
